@@ -208,3 +208,49 @@ func VerifHarness_C03_sign_vote_and_proposal() {
 		}
 	}
 }
+
+// vC03Overlap is the signing device seen from a second goroutine: while request 1 is inside Sign,
+// a second, conflicting request arrives. It can only enter the validator if the validator's mutex is
+// free at that moment (TryLock) — with the check, the signing and the recording of the watermark in
+// one critical section it is not, and the second request simply waits until the first is recorded.
+type vC03Overlap struct {
+	pv       *PrivValidator
+	other    *Vote
+	ran      bool
+	otherErr error
+}
+
+func (s *vC03Overlap) Sign(msg []byte) crypto.Signature {
+	if !s.ran && s.pv.mtx.TryLock() {
+		s.pv.mtx.Unlock()
+		s.ran = true
+		s.otherErr = s.pv.SignVote("chain", s.other)
+	}
+	return vC03Signer{}.Sign(msg)
+}
+
+// Two conflicting votes for the same height/round/step requested by overlapping callers: at most
+// one signature is released (one schedule point is explored: the second request arrives while the
+// first is inside the signing device).
+func VerifHarness_C03_overlapping_requests() {
+	mem := vC03NondetRec("mem")
+	dev := &vC03Overlap{}
+	pv := &PrivValidator{Signer: dev}
+	dev.pv = pv
+	vC03Apply(pv, mem)
+	pv.filePath = vC03Path(true)
+	h, r, typ := vNondetInt64("h"), vNondetInt64("r"), byte(VoteTypePrevote)
+	vAssume(h >= 0 && r >= 0)
+	if vNondetBool("precommit") {
+		typ = VoteTypePrecommit
+	}
+	v1 := &Vote{Height: h, Round: r, Type: typ, BlockID: BlockID{Hash: []byte{0xA}}}
+	dev.other = &Vote{Height: h, Round: r, Type: typ, BlockID: BlockID{Hash: []byte{0xB}}}
+	err1 := pv.SignVote("chain", v1)
+	vReach("first-request-returned")
+	if err1 == nil {
+		vReach("first-request-signed")
+	}
+	vAssert(!(err1 == nil && v1.Signature != nil && dev.ran && dev.otherErr == nil && dev.other.Signature != nil),
+		"no-two-conflicting-signatures-when-requests-overlap")
+}
